@@ -324,6 +324,8 @@ pub struct E1Stats {
 }
 
 pub struct E1Run<'a> {
+    /// C19: number of resource relabellings to try per state (0 = off)
+    pub c19_maps: usize,
     pub profile: &'a Profile,
     pub depth: usize,
     pub props: Props,
@@ -435,6 +437,19 @@ impl<'a> Worker<'a> {
             }
             if self.samples.len() < 3 && ops.len() == self.run.depth && (self.stats.states % 977 == 1) {
                 self.samples.push(json!({"plan": plan_short(ops), "executed_layout": l.short()}));
+            }
+            if self.run.c19_maps > 0 && all_calls_ok(&obs) {
+                let (n, vs) = c19_check(ops, l, self.run.c19_maps);
+                self.stats.barrier_metamorphic += n;
+                for (sig, msg) in vs {
+                    self.col.add(Finding {
+                        prop: "C19".into(),
+                        sig,
+                        msg: format!("{} | plan: {} | layout {}", msg, plan_short(ops), l.short()),
+                        replay: json!({"kind":"plan","ops":plan_json(ops)}),
+                        size: ops.len() * 100 + plan_short(ops).len().min(99),
+                    });
+                }
             }
             // C03 metamorphic: redundant barriers change nothing
             if self.run.props.c03 {
@@ -715,4 +730,134 @@ pub fn stats_json(label: &str, depth: usize, r: &E1Result, wall: f64) -> Value {
         "exhaustive": !r.stats.capped,
         "wall_s": wall,
     })
+}
+
+// ---------------------------------------------------------------------------
+// C19: the plan is invariant under renaming, relabelling and list permutation
+// ---------------------------------------------------------------------------
+
+fn map_names(ops: &[Op], f: &dyn Fn(&str) -> String) -> Vec<Op> {
+    ops.iter()
+        .map(|o| match o {
+            Op::Sys(s) => Op::Sys(SysSpec { name: if s.name.is_empty() { String::new() } else { f(&s.name) }, deps: s.deps.iter().map(|d| f(d)).collect(), ..s.clone() }),
+            Op::Batch(b) => Op::Batch(BatchSpec { name: if b.name.is_empty() { String::new() } else { f(&b.name) }, deps: b.deps.iter().map(|d| f(d)).collect(), inner: b.inner.clone(), ..b.clone() }),
+            x => x.clone(),
+        })
+        .collect()
+}
+
+fn map_lists(ops: &[Op], f: &dyn Fn(&[u8]) -> Vec<u8>) -> Vec<Op> {
+    ops.iter()
+        .map(|o| match o {
+            Op::Sys(s) => Op::Sys(SysSpec { reads: f(&s.reads), writes: f(&s.writes), ..s.clone() }),
+            Op::Tl(s) => Op::Tl(SysSpec { reads: f(&s.reads), writes: f(&s.writes), ..s.clone() }),
+            Op::Batch(b) => Op::Batch(BatchSpec { inner: map_lists(&b.inner, f), ..b.clone() }),
+            x => x.clone(),
+        })
+        .collect()
+}
+
+/// all injective maps of {0,1,2,3} into the 6 concrete resources, in a fixed order
+pub fn resmaps(limit: usize) -> Vec<Vec<u8>> {
+    let mut out = Vec::new();
+    for a in 0..6u8 {
+        for b in 0..6u8 {
+            for c in 0..6u8 {
+                for d in 0..6u8 {
+                    if a != b && a != c && a != d && b != c && b != d && c != d {
+                        let mut m = vec![a, b, c, d];
+                        // unused abstract slots 4,5 map to the two remaining concrete ones
+                        for x in 0..6u8 {
+                            if !m.contains(&x) {
+                                m.push(x);
+                            }
+                        }
+                        out.push(m);
+                    }
+                }
+            }
+        }
+    }
+    // spread the selection over the whole list (identity first is skipped by the caller)
+    if limit >= out.len() {
+        return out;
+    }
+    let step = out.len() as f64 / limit as f64;
+    (0..limit).map(|i| out[(i as f64 * step) as usize].clone()).collect()
+}
+
+/// returns (number of transformed builds, violations)
+pub fn c19_check(ops: &[Op], l: &crate::hsys::Layout, nmaps: usize) -> (u64, Vec<(String, String)>) {
+    let idm = Ctx::identity_map();
+    let mut n = 0u64;
+    let mut vs = Vec::new();
+    let mut cmp = |what: &str, sig: &str, t: &[Op], map: &[u8], n: &mut u64, vs: &mut Vec<(String, String)>| {
+        *n += 1;
+        match layout_of(t, map) {
+            Ok(l2) => {
+                if l2 != *l {
+                    vs.push((sig.to_string(), format!("{}: layout becomes {}", what, l2.short())));
+                }
+            }
+            Err(e) => vs.push(("transformed-plan-rejected".to_string(), format!("{}: {}", what, e))),
+        }
+    };
+    // (iv) a second build in the same process
+    cmp("second build of the same sequence", "plan-not-reproducible", ops, &idm, &mut n, &mut vs);
+    // (i) renamings
+    let names: Vec<String> = named_before(ops);
+    if !names.is_empty() {
+        let nn = names.clone();
+        cmp("fresh names in reverse lexical order", "plan-depends-on-names", &map_names(ops, &|s| format!("z{:03}", 900 - nn.iter().position(|x| x == s).unwrap_or(0))), &idm, &mut n, &mut vs);
+        let nn = names.clone();
+        cmp("sanitiser-hostile names", "plan-depends-on-names", &map_names(ops, &|s| format!("a b-c/d {}", nn.iter().position(|x| x == s).unwrap_or(0))), &idm, &mut n, &mut vs);
+        if names.len() >= 2 {
+            let nn = names.clone();
+            cmp("names rotated among the systems", "plan-depends-on-names", &map_names(ops, &|s| nn[(nn.iter().position(|x| x == s).unwrap_or(0) + 1) % nn.len()].clone()), &idm, &mut n, &mut vs);
+        }
+    }
+    // (iii) permutations / duplications of each system's declared lists
+    cmp("read/write lists reversed", "plan-depends-on-list-order", &map_lists(ops, &|v| v.iter().rev().copied().collect()), &idm, &mut n, &mut vs);
+    cmp(
+        "read/write lists with a duplicated entry",
+        "plan-depends-on-duplicate-entries",
+        &map_lists(ops, &|v| {
+            let mut w = v.to_vec();
+            if let Some(f) = v.first() {
+                w.push(*f);
+            }
+            w
+        }),
+        &idm,
+        &mut n,
+        &mut vs,
+    );
+    cmp(
+        "read/write lists rotated with the last entry duplicated in front",
+        "plan-depends-on-list-order",
+        &map_lists(ops, &|v| {
+            let mut w = v.to_vec();
+            if let Some(l) = v.last() {
+                w.insert(0, *l);
+            }
+            w
+        }),
+        &idm,
+        &mut n,
+        &mut vs,
+    );
+    // (ii) injective relabellings of the resources across types and dynamic ids
+    // batch controllers name their data by static types (A = (Cell0,0), C = (Cell1,0)), which the harness
+    // cannot relabel: keep A and C fixed for plans whose controllers declare data
+    fn has_ctrl_data(ops: &[Op]) -> bool {
+        ops.iter().any(|o| matches!(o, Op::Batch(b) if b.ctrl != CtrlData::Unit || has_ctrl_data(&b.inner)))
+    }
+    let fixed = has_ctrl_data(ops);
+    for m in resmaps(nmaps).iter().skip(1) {
+        if fixed && !(m[0] == 0 && m[2] == 2) {
+            continue;
+        }
+        cmp(&format!("resources relabelled by {:?}", &m[..4]), "plan-depends-on-resource-identity", ops, m, &mut n, &mut vs);
+    }
+    (n, vs)
 }
